@@ -1,6 +1,76 @@
 --------------------------- MODULE SchemaPayloads3 ---------------------------
+(* Operation payloads, part 3: attribute operations - Get Attributes, Get   *)
+(* Attribute List, Modify Attribute, Delete Attribute (KMIP 1.x section 4,   *)
+(* KMIP 2.0 section 6.1) and Set Attribute (KMIP 2.0 only).                  *)
+(*                                                                         *)
+(* KMIP 2.0 replaces "Attribute Name" text strings by Attribute References  *)
+(* (an Enumeration of the attribute's tag for a standard attribute, or the  *)
+(* AttributeReference structure) and bare Attribute structures by the       *)
+(* Attributes / Current Attribute / New Attribute structures.  Where the    *)
+(* library has ONE constructor argument for both shapes the schema has two  *)
+(* fields gated by version (..., Until 14 / ..._references|_2, Since 20);   *)
+(* the binding (harness/schemaext/p3.py) maps both onto the one argument.   *)
 EXTENDS KmipSchemaCore
-SchemaPayloads3T == [ x \in {} |-> <<>> ]
-ClassTagPayloads3 == [ x \in {} |-> "" ]
-ClassSincePayloads3 == [ x \in {} |-> <<10, 20>> ]
+
+SchemaPayloads3T == [
+  \* 1.0 states Attribute Name as "Yes, MAY be repeated", 1.1-1.4 as "No, MAY be repeated" (omitted = all
+  \* attributes); the one field cannot carry two cardinalities, 1.1+ is written here.
+  \* 2.0: Attribute Reference is an Enumeration (Tag) or an AttributeReference structure; the library only ever
+  \* WRITES the enumeration form (it keeps names and converts them), so the enumeration form is modelled.
+  GetAttributesRequestPayload |-> <<
+      Opt("unique_identifier", "UNIQUE_IDENTIFIER", "text"),
+      Until(Many("attribute_names", "ATTRIBUTE_NAME", "text"), 14),
+      Since(ManyE("attribute_references", "ATTRIBUTE_REFERENCE", "Tags"), 20) >>,
+  \* 1.0 states Attribute as "Yes, MAY be repeated", 1.1-1.4 as "No, MAY be repeated"; 1.1+ is written here.
+  \* 2.0: one Attributes structure (kind tmpl under 2.0 = the Attributes structure of the value's attribute list).
+  GetAttributesResponsePayload |-> <<
+      Req("unique_identifier", "UNIQUE_IDENTIFIER", "text"),
+      F("attributes", "ATTRIBUTE", "attrs", "", "*", 10, 20) >>,     \* 2.0: one Attributes structure
+  GetAttributeListRequestPayload |-> <<
+      Opt("unique_identifier", "UNIQUE_IDENTIFIER", "text") >>,
+  \* 1.x: Attribute Name "Yes, MAY be repeated"; 2.0: Attribute Reference "Yes, MAY be repeated" (enumeration form
+  \* modelled, see GetAttributesRequestPayload)
+  GetAttributeListResponsePayload |-> <<
+      Req("unique_identifier", "UNIQUE_IDENTIFIER", "text"),
+      Until(Some("attribute_names", "ATTRIBUTE_NAME", "text"), 14),
+      Since(Card(ManyE("attribute_references", "ATTRIBUTE_REFERENCE", "Tags"), "+"), 20) >>,
+  \* 1.x: Unique Identifier (No), Attribute (Yes).  2.0: Unique Identifier (No), Current Attribute (No), New Attribute (Yes).
+  ModifyAttributeRequestPayload |-> <<
+      Opt("unique_identifier", "UNIQUE_IDENTIFIER", "text"),
+      Until(ReqS("attribute", "ATTRIBUTE", "Attribute"), 14),
+      Since(OptS("current_attribute", "CURRENT_ATTRIBUTE", "CurrentAttribute"), 20),
+      Since(ReqS("new_attribute", "NEW_ATTRIBUTE", "NewAttribute"), 20) >>,
+  \* 1.x: Unique Identifier (Yes), Attribute (Yes).  2.0: Unique Identifier (Yes) only.
+  ModifyAttributeResponsePayload |-> <<
+      Req("unique_identifier", "UNIQUE_IDENTIFIER", "text"),
+      Until(ReqS("attribute", "ATTRIBUTE", "Attribute"), 14) >>,
+  \* 2.0 only: Unique Identifier (No), New Attribute (Yes) / Unique Identifier (Yes)
+  SetAttributeRequestPayload |-> <<
+      Opt("unique_identifier", "UNIQUE_IDENTIFIER", "text"),
+      ReqS("new_attribute", "NEW_ATTRIBUTE", "NewAttribute") >>,
+  SetAttributeResponsePayload |-> <<
+      Req("unique_identifier", "UNIQUE_IDENTIFIER", "text") >>,
+  \* 1.x: Unique Identifier (No), Attribute Name (Yes), Attribute Index (No).
+  \* 2.0: Unique Identifier (No), Current Attribute (No), Attribute Reference (No); one of the two identifies the
+  \* attribute to delete (the generator always supplies at least one).  The library has the structure form of
+  \* Attribute Reference only.
+  DeleteAttributeRequestPayload |-> <<
+      Opt("unique_identifier", "UNIQUE_IDENTIFIER", "text"),
+      Until(Req("attribute_name", "ATTRIBUTE_NAME", "text"), 14),
+      Until(Opt("attribute_index", "ATTRIBUTE_INDEX", "int"), 14),
+      Since(OptS("current_attribute", "CURRENT_ATTRIBUTE", "CurrentAttribute"), 20),
+      Since(OptS("attribute_reference", "ATTRIBUTE_REFERENCE", "AttributeReference"), 20) >>,
+  \* 1.x: Unique Identifier (Yes), Attribute (Yes).  2.0: Unique Identifier (Yes) only.
+  DeleteAttributeResponsePayload |-> <<
+      Req("unique_identifier", "UNIQUE_IDENTIFIER", "text"),
+      Until(ReqS("attribute", "ATTRIBUTE", "Attribute"), 14) >>
+]
+ClassTagPayloads3 == [
+  GetAttributesRequestPayload |-> "REQUEST_PAYLOAD", GetAttributesResponsePayload |-> "RESPONSE_PAYLOAD",
+  GetAttributeListRequestPayload |-> "REQUEST_PAYLOAD", GetAttributeListResponsePayload |-> "RESPONSE_PAYLOAD",
+  ModifyAttributeRequestPayload |-> "REQUEST_PAYLOAD", ModifyAttributeResponsePayload |-> "RESPONSE_PAYLOAD",
+  SetAttributeRequestPayload |-> "REQUEST_PAYLOAD", SetAttributeResponsePayload |-> "RESPONSE_PAYLOAD",
+  DeleteAttributeRequestPayload |-> "REQUEST_PAYLOAD", DeleteAttributeResponsePayload |-> "RESPONSE_PAYLOAD" ]
+ClassSincePayloads3 == [
+  SetAttributeRequestPayload |-> <<20, 20>>, SetAttributeResponsePayload |-> <<20, 20>> ]
 =============================================================================
